@@ -149,8 +149,10 @@ def run_impl(case):
     shape = [l for _, l in case["dims"]]
     da = xr.DataArray(np.array(case["vals"], dtype=case.get("dtype", "float64")).reshape(shape),
                       dims=[d for d, _ in case["dims"]])
-    if c.get("ds_extra") and "t" in da.dims and case.get("warmup") is not None and len(case["vals"]) % 2 == 0:
-        da = da.assign_coords(t=("t", [10.0, 20.0][:da.sizes["t"]]))        # the selection carries its own labels
+    for d_ in (c.get("ds_extra") or {}):
+        if d_ in da.dims and len(case["vals"]) % 2 == 0:
+            # the selection carries its own labels
+            da = da.assign_coords({d_: (d_, [10.0 * (i + 1) for i in range(da.sizes[d_])])})
     if case.get("lazy"):
         da = da.chunk(case["lazy"])
     kwargs = {}
